@@ -89,7 +89,7 @@ def register_update(R):
     R.contract("<opaque>", "FieldsDict.update", serves=["C12"], params={"self": "opaque:FieldsDict", "other": "opaque:FieldsDict"},
                trusted="dict.update on the free-form task fields (not part of the property)")
     R.contract("rich.progress", "Progress.refresh", serves=["C12", "C10"], params={"self": "Progress"},
-               raises={"Exception": "*"},
+               raises={"BaseException": "*"},
                trusted="rendering: reads the tasks, writes to the console, may raise from user columns; does not modify task accounting (by inspection: refresh/get_renderable/make_tasks_table only read task fields)")
     T = "self._tasks[task_id]"
     A = "acq(self._tasks[task_id])"
@@ -99,7 +99,7 @@ def register_update(R):
                 "description": "Optional[ostr]", "visible": "Optional[bool]", "refresh": "bool", "fields": "opaque:FieldsDict"},
         requires=["implies(advance is not None, advance >= 0)", "implies(completed is not None, completed >= 0)"],
         ghost={"ghost_now": "float"}, monitor=adv.monitor, loops=adv.loops,
-        raises={"KeyError": "*", "Exception": "*"},
+        raises={"KeyError": "*", "BaseException": "*"},
         ensures=[
             f"implies(completed is not None, {T}.completed == completed)",
             f"implies(completed is None and advance is not None, {T}.completed == {A}.completed + advance)",
@@ -115,7 +115,7 @@ def register_update(R):
         params={"self": "Progress", "task_id": "int", "start": "bool", "total": "Optional[int]", "completed": "int",
                 "visible": "Optional[bool]", "description": "Optional[ostr]", "fields": "opaque:FieldsDict"},
         ghost={"ghost_now": "float"}, monitor=adv.monitor,
-        raises={"KeyError": "*", "Exception": "*"},
+        raises={"KeyError": "*", "BaseException": "*"},
         ensures=[
             f"{T}.completed == completed",
             f"{T}.finished_time is None",
@@ -124,7 +124,7 @@ def register_update(R):
             f"implies(total is None, {T}.total == {A}.total)",
             f"iff({T}.start_time is not None, start)",
         ],
-        ensures_raise={"Exception": [f"{T}.completed == completed", f"{T}.finished_time is None"]},
+        ensures_raise={"BaseException": [f"{T}.completed == completed", f"{T}.finished_time is None"]},
         native=False,
     )
     R.contract(
